@@ -21,13 +21,13 @@ from props import unitlib as ul
 ID = 'C04'
 PROFILES = ['dev', 'release']
 REPLAY_PROFILES = ['dev', 'release']
-TIME_LIMIT = {'quick': 900, 'thorough': 3000}
+TIME_LIMIT = {'quick': 900, 'thorough': 3300}
 BUDGET = 200
 FIRST_BUDGET = 400
 
 def jobs(tier, seed, report):
     report.bounds = {'magnitudes': 'unbounded rationals', 'powers': '-2..2 without 0 (symbolic)', 'exponent_of_pow': '-4..4 symbolic integer; non-integers and unit-carrying exponents must be refused',
-                     'shapes': 'quick: 1x1 entries over a seeded sample of all unit pairs + the whole 14-unit basis squared, 2x1 sampled from the basis; thorough: 1500 seeded 1x1 pairs, all 2x1 and 400 seeded 2x2 shapes over the basis',
+                     'shapes': 'quick: 1x1 entries over a seeded sample of all unit pairs + the whole 14-unit basis squared, 2x1 sampled from the basis; thorough: 900 seeded 1x1 pairs, 300 seeded 2x1 and 120 seeded 2x2 shapes over the basis',
                      'profiles': 'dev and release MIR (release: 1x1 basis only in quick)'}
     report.outside = ['more than 2 entries per operand', 'integer powers of a quantity in an offset unit (°C^n; conversions of such units are C09)', 'prefixes other than {0,3} on the first entry']
     report.assumptions = ['BigRational exact (SMT Real; products of symbolic magnitudes are nonlinear real arithmetic)', 'declared unit scales are checked against the standards in C05']
@@ -40,7 +40,7 @@ def jobs(tier, seed, report):
     js = []
     pairs = [(a, b) for a in voc for b in voc]
     rnd.shuffle(pairs)
-    pairs = pairs[:220 if tier == 'quick' else 1500]
+    pairs = pairs[:220 if tier == 'quick' else 900]
     pairs += [(a, b) for a in B for b in B]
     for i in range(0, len(pairs), 6): js.append({'name': f'1x1-{i}', 'kind': 'muldiv', 'profile': 'dev', 'shapes': [([a], [b]) for a, b in pairs[i:i + 6]]})
     pp = [(a, b) for a in B for b in B]; rnd.shuffle(pp)
@@ -50,12 +50,12 @@ def jobs(tier, seed, report):
     for i in range(0, 36 if tier == 'quick' else len(bb), 6): js.append({'name': f'rel-1x1-{i}', 'kind': 'muldiv', 'profile': 'release', 'shapes': [([a], [b]) for a, b in bb[i:i + 6]]})
     sh21 = [([a, b], [c]) for a, b in itertools.combinations(B, 2) for c in B]
     rnd.shuffle(sh21)
-    n21 = 24 if tier == 'quick' else len(sh21)
+    n21 = 24 if tier == 'quick' else min(len(sh21), 300)
     for i in range(0, n21, 2): js.append({'name': f'2x1-{i}', 'kind': 'muldiv', 'profile': 'dev', 'shapes': sh21[i:i + 2]})
     if tier != 'quick':
         sh22 = [([a, b], [c, d]) for a, b in itertools.combinations(B, 2) for c, d in itertools.combinations(B, 2)]
         rnd.shuffle(sh22)
-        for i in range(0, 400, 2): js.append({'name': f'2x2-{i}', 'kind': 'muldiv', 'profile': 'dev', 'shapes': sh22[i:i + 2]})
+        for i in range(0, 120, 2): js.append({'name': f'2x2-{i}', 'kind': 'muldiv', 'profile': 'dev', 'shapes': sh22[i:i + 2]})
     # zero-point scales in products and quotients, both operand orders, with themselves, with kelvin and with other units
     OFF = [ul.resolve(I, n) for n in ul.OFFSET_UNITS]
     others = [ul.resolve(I, n) for n in ('Meter', 'Kelvin', 'Second', 'energy::JOULE')] + (B if tier != 'quick' else [])
